@@ -113,6 +113,35 @@ let handle line =
   | ["brender"; np; dp] ->
       bres_str hb (M.b_render M.gen_tables !loaded (nat_of_int 64) (bh np) (bh dp) !bstate)
   | ["brequires"] -> lst (!bstate).M.b_reqs
+  | ["breadtext"; np; dp; text] ->
+      let rv_str = function M.RS s -> "s" ^ hb s | M.RL l -> "l" ^ String.concat "+" (List.map hb l)
+                          | M.RI d -> "i" ^ string_of_bytes d in
+      let tup t = match t with [] -> "()" | _ -> String.concat "," (List.map rv_str t) in
+      let tups = function M.RCrash -> "crash" | M.ROk [] -> "-" | M.ROk l -> String.concat ";" (List.map tup l) in
+      (match M.parse M.gen_tables (bh text) with
+       | M.Accept ns ->
+           let (_, fs) = M.from_parser_result (bh np) (bh dp) ns in
+           let fuel = nat_of_int 64 in
+           (match fs with [] -> "-" | _ -> String.concat " / " (List.map (fun f ->
+              hb f.M.lf_name ^ " = " ^
+              (match M.l_getfilter f with
+               | None -> "crash"
+               | Some flt ->
+                   tups (M.std_get_conditions fuel flt) ^ " | " ^ tups (M.std_get_actions fuel flt) ^ " | " ^
+                   (match M.get_matchtype fuel flt with None -> "none" | Some m -> hb m))) fs))
+       | _ -> "reject")
+  | ["bread"; n] ->
+      let rv_str = function M.RS s -> "s" ^ hb s | M.RL l -> "l" ^ String.concat "+" (List.map hb l)
+                          | M.RI d -> "i" ^ string_of_bytes d in
+      let tup t = match t with [] -> "()" | _ -> String.concat "," (List.map rv_str t) in
+      let tups = function M.RCrash -> "crash" | M.ROk [] -> "-" | M.ROk l -> String.concat ";" (List.map tup l) in
+      (match M.b_getfilter M.gen_tables !loaded (bh n) !bstate with
+       | None -> "none"
+       | Some (M.BOk flt) ->
+           let fuel = nat_of_int 64 in
+           tups (M.std_get_conditions fuel flt) ^ " | " ^ tups (M.std_get_actions fuel flt) ^ " | " ^
+           (match M.get_matchtype fuel flt with None -> "none" | Some m -> hb m)
+       | Some _ -> "crash")
   | ["bload"; np; dp; text] ->
       (match M.parse M.gen_tables (bh text) with
        | M.Accept ns ->
